@@ -405,7 +405,7 @@ var verifC16QStatesR = map[arvados.ContainerState]string{
 
 // wait until the goroutines spawned since the baseline was taken have finished
 func verifC16QSettle(base int) bool {
-	deadline := time.Now().Add(10 * time.Second)
+	deadline := time.Now().Add(60 * time.Second)
 	for runtime.NumGoroutine() > base {
 		if time.Now().After(deadline) {
 			return false
@@ -590,7 +590,7 @@ func verifC16CQ(f []string) string {
 				go func(done chan error) { done <- cq.Update() }(updDone)
 				select {
 				case <-arrived:
-				case <-time.After(10 * time.Second):
+				case <-time.After(60 * time.Second):
 					return "timeout waiting for the poll to start"
 				}
 			case tok == "us":
@@ -613,7 +613,7 @@ func verifC16CQ(f []string) string {
 				api.mtx.Unlock()
 				select {
 				case <-updDone:
-				case <-time.After(10 * time.Second):
+				case <-time.After(60 * time.Second):
 					return "timeout waiting for Update"
 				}
 				api.mtx.Lock()
